@@ -90,12 +90,38 @@ func (w *World) ruleEveryValueStored(r *Report, rule string) {
 				}
 			}
 		}
-		if !makes {
-			continue
-		}
 		for li, lp := range naturalLoops(fn) {
 			reads := w.elementReads(lp, reachesRD)
 			if len(reads) == 0 {
+				continue
+			}
+			// the loop fills a container: the function makes one, or some iteration path
+			// appends / stores an element / sets a map entry
+			fills := makes
+			for b := range lp.body {
+				for _, in := range b.Instrs {
+					switch x := in.(type) {
+					case *ssa.MapUpdate:
+						fills = true
+					case *ssa.Call:
+						if bi, ok := x.Call.Value.(*ssa.Builtin); ok && bi.Name() == "append" {
+							fills = true
+						}
+						if sc := x.Call.StaticCallee(); sc != nil {
+							switch qualifiedFnName(sc) {
+							case "reflect.Append", "reflect.AppendSlice", "(reflect.Value).SetMapIndex":
+								fills = true
+							}
+						}
+						for _, a := range x.Call.Args {
+							if ic, ok := a.(*ssa.Call); ok && ic.Call.StaticCallee() != nil && qualifiedFnName(ic.Call.StaticCallee()) == "(reflect.Value).Index" {
+								fills = true
+							}
+						}
+					}
+				}
+			}
+			if !fills {
 				continue
 			}
 			n++
